@@ -24,7 +24,10 @@ if [ $R0 -ne 0 ] || [ $B -ne 0 ] || [ $R1 -eq 0 ] || [ $S1 -ne 0 ] || [ $S2 -ne 
 echo "CONFIRMED"
 # run our check against it
 cd /repo && git apply $WT/$SD/patch.diff || { echo APPLY-REPO-FAILED; exit 2; }
-cd /verif && ./run.sh check -property $PROP -no-evidence > /tmp/seedrun-$ID.txt 2>&1; RC=$?
+cd /verif; RC=0; : > /tmp/seedrun-$ID.txt
+for P in $(python3 -c "import json;print(' '.join(c['property_id'] for c in json.load(open('/verif/MANIFEST.json'))['checks']))"); do
+  ./run.sh check -property $P -no-evidence >> /tmp/seedrun-$ID.txt 2>&1 || RC=1
+done
 git -C /repo checkout -q -- .
 grep -E "^VIOLATION C|^UNDECIDED" /tmp/seedrun-$ID.txt | head -5
 echo "CHECK exit=$RC"
